@@ -26,7 +26,13 @@ case "${1:-}" in
         case "$flavour" in
             async-std) build -async rt-async || exit 2; exec /verif/.target-async/release/mc replay "$2" ;;
             smol) build -smol rt-smol || exit 2; exec /verif/.target-smol/release/mc replay "$2" ;;
-            *) build "" rt-tokio || exit 2; exec /verif/.target/release/mc replay "$2" ;;
+            *)
+                profile=$(python3 -c "import json,sys; print(json.load(open(sys.argv[1])).get('profile','release'))" "$2" 2>/dev/null || echo release)
+                if [ "$profile" = dbg ]; then
+                    CARGO_TARGET_DIR=/verif/.target cargo build --profile dbg --offline --no-default-features --features rt-tokio >/dev/null 2>&1 || { echo "MACHINERY-ERROR: harness build (debug assertions) failed" >&2; exit 2; }
+                    exec /verif/.target/dbg/mc replay "$2"
+                fi
+                build "" rt-tokio || exit 2; exec /verif/.target/release/mc replay "$2" ;;
         esac ;;
     selftest) build "" rt-tokio || exit 2; exec /verif/.target/release/mc selftest ;;
     C18)
@@ -50,6 +56,40 @@ case "${1:-}" in
         r=$?
         [ $r -gt $rc ] && rc=$r
         exit $rc ;;
+    C08|C09|C14)
+        # properties that involve the service registry are explored on two builds: release
+        # semantics, and debug assertions on (hannibal then pings a freshly spawned service
+        # inside from_registry, which changes what is held across which await)
+        tier="${2:-${VERIF_TIER:-quick}}"
+        build "" rt-tokio || exit 2
+        if ! CARGO_TARGET_DIR=/verif/.target cargo build --profile dbg --offline --no-default-features --features rt-tokio >/verif/.target/build-dbg-$$.log 2>&1; then
+            echo "MACHINERY-ERROR: harness build (debug assertions) failed" >&2
+            grep -E "^error" -A12 /verif/.target/build-dbg-$$.log | head -60 >&2
+            rm -f /verif/.target/build-dbg-$$.log
+            exit 2
+        fi
+        rm -f /verif/.target/build-dbg-$$.log /verif/.target/$1-dbg-evidence.json
+        /verif/.target/release/mc check "$1" "$tier"; r1=$?
+        VERIF_EVIDENCE_FILE=/verif/.target/$1-dbg-evidence.json /verif/.target/dbg/mc check "$1" "$tier"; r2=$?
+        # the second build's coverage goes into the same evidence file
+        python3 - "$1" <<'PY'
+import json, sys
+pid = sys.argv[1]
+try:
+    main = json.load(open(f"/verif/evidence/{pid}.json"))
+    dbg = json.load(open(f"/verif/.target/{pid}-dbg-evidence.json"))
+    main["coverage"]["debug_assertions_build"] = {**dbg["coverage"], "wall_s": dbg["wall_s"], "violations": dbg.get("violations", 0)}
+    main["violations"] = main.get("violations", 0) + dbg.get("violations", 0)
+    main["wall_s"] = main["wall_s"] + dbg["wall_s"]
+    json.dump(main, open(f"/verif/evidence/{pid}.json", "w"), indent=1)
+except Exception as e:
+    print(f"MACHINERY-ERROR: cannot merge the evidence of the two builds: {e}", file=sys.stderr)
+    sys.exit(2)
+PY
+        r3=$?
+        if [ $r1 -eq 1 ] || [ $r2 -eq 1 ]; then exit 1; fi
+        if [ $r1 -ne 0 ] || [ $r2 -ne 0 ] || [ $r3 -ne 0 ]; then exit 2; fi
+        exit 0 ;;
     *)
         build "" rt-tokio || exit 2
         exec /verif/.target/release/mc check "$1" "${2:-${VERIF_TIER:-quick}}" ;;
